@@ -2124,6 +2124,9 @@ def _put_slice_ClassDef_bases(
         if body and keywords[0].f.loc[:2] < body[stop - 1].f.loc[2:] and stop:
             raise NodeError("cannot put to ClassDef.bases slice because it follows keywords, try the '_bases' field")
 
+        if fst_ and start == stop < len_body and keywords[0].f.loc[:2] < body[stop].f.loc[:2]:  # pure insertion lands right before the next base, which is past the first keyword
+            raise NodeError("cannot put to ClassDef.bases slice because it would follow keywords, try the '_bases' field")
+
     bound_ln, bound_col, bound_end_ln, bound_end_col = bases_pars = self._loc_ClassDef_bases_pars()
 
     locabst = _LocationAbstract(body)
@@ -2829,6 +2832,9 @@ def _put_slice_Call_args(
     if keywords := ast.keywords:
         if body and keywords[0].f.loc[:2] < body[stop - 1].f.loc[2:] and stop:
             raise NodeError("cannot put to Call.args slice because it follows keywords, try the '_args' field")
+
+        if fst_ and start == stop < len_body and keywords[0].f.loc[:2] < body[stop].f.loc[:2]:  # pure insertion lands right before the next arg, which is past the first keyword
+            raise NodeError("cannot put to Call.args slice because it would follow keywords, try the '_args' field")
 
     else:
         if body and (f0 := body[0].f)._is_solo_call_arg_genexp() and f0.pars(shared=False).n == -1:  # single call argument GeneratorExp shares parentheses with Call?
